@@ -328,6 +328,8 @@ pub fn enc_seq<T: VT>(items: &[T], out: &mut RefBuf) {
     }
 }
 pub fn valid_seq<T: VT>(a: &[T]) -> bool {
+    // a slice / Vec data pointer must be aligned for T even when T is zero-sized or the length is 0
+    if (a.as_ptr() as usize) % std::mem::align_of::<T>() != 0 { return false; }
     if a.len() == 0 { return true; }
     a[sym_index(a.len())].valid()
 }
